@@ -66,6 +66,7 @@ enum Local {
 }
 
 struct Ctx {
+    frame: std::cell::RefCell<(String, String)>, // (how the destination is obtained, how it is handed back)
     args: Vec<String>, // argument names in declaration order, `self` first; the caller's function excluded
     fname: String,     // the caller's function parameter
     locals: BTreeMap<String, Local>,
@@ -344,6 +345,7 @@ fn block(cx: &mut Ctx, stmts: &[Stmt]) -> R<String> {
                     let k = cx.arg_index(a[0]).ok_or("ManuallyDrop::new of a non-argument")?;
                     cx.locals.insert(name, Local::NoDrop(k));
                 } else if (ends_with(&p, &["uninit"]) || ends_with(&p, &["new_uninit"])) && a.is_empty() {
+                    cx.frame.borrow_mut().0 = p.join("::");
                     cx.locals.insert(name, Local::Uninit);
                 } else if ends_with(&p, &["IntrusiveArrayBuilder", "new"]) && a.len() == 1 {
                     // &mut array  or  &mut *array.as_mut_ptr()
@@ -382,6 +384,12 @@ fn block(cx: &mut Ctx, stmts: &[Stmt]) -> R<String> {
                 let ok_init = match &rest[1] {
                     Stmt::Expr(e, None) => {
                         let p = call_path(e).unwrap_or_default();
+                        // the ending, with the callee of its argument when that is a call: Box::from_raw(Box::into_raw(array).cast())
+                        let inner = call_args(e).first().map(|a| match strip(a) {
+                            Expr::MethodCall(m) => format!("{}(..).{}()", call_path(&m.receiver).unwrap_or_default().join("::"), m.method),
+                            other => ident_of(other).unwrap_or_default(),
+                        });
+                        cx.frame.borrow_mut().1 = format!("{}({})", p.join("::"), inner.unwrap_or_default());
                         ends_with(&p, &["IntrusiveArrayBuilder", "array_assume_init"]) || ends_with(&p, &["Box", "from_raw"])
                     }
                     _ => false,
@@ -468,7 +476,7 @@ fn nd_cond(e: &Expr, tparams: &BTreeMap<String, usize>) -> R<String> {
     }
 }
 
-fn translate(f: &syn::ImplItemFn, self_elem: &str) -> R<String> {
+fn translate(f: &syn::ImplItemFn, self_elem: &str) -> R<(String, (String, String))> {
     // arguments: self first, then the sequence arguments; the closure parameter is the one named f
     let mut args = vec![];
     let mut tparams: BTreeMap<String, usize> = BTreeMap::new();
@@ -498,7 +506,7 @@ fn translate(f: &syn::ImplItemFn, self_elem: &str) -> R<String> {
         }
     }
     let fname = fname.ok_or("no caller-supplied function parameter of type F")?;
-    let mut cx = Ctx { args, fname, locals: BTreeMap::new() };
+    let mut cx = Ctx { frame: Default::default(), args, fname, locals: BTreeMap::new() };
     let stmts = unwrap_unsafe(&f.block);
     if stmts.len() == 1 {
         if let Stmt::Expr(Expr::If(i), None) = &stmts[0] {
@@ -514,10 +522,12 @@ fn translate(f: &syn::ImplItemFn, self_elem: &str) -> R<String> {
                 },
                 None => return Err("needs_drop test without else".into()),
             };
-            return Ok(format!("FIfNeedsDrop {}\n  {}\n  {}", c, t, e));
+            return Ok((format!("FIfNeedsDrop {}\n  {}\n  {}", c, t, e), cx.frame.borrow().clone()));
         }
     }
-    Ok(format!("FPipe {}", block(&mut cx, &stmts)?))
+    let t = block(&mut cx, &stmts)?;
+    let fr = cx.frame.borrow().clone();
+    Ok((format!("FPipe {}", t), fr))
 }
 
 /// element type parameter of a sequence-typed argument
@@ -677,7 +687,7 @@ fn translate_iter_fold(f: &syn::ImplItemFn, back: bool) -> R<String> {
         })
         .next()
         .ok_or("no caller-supplied function parameter")?;
-    let mut cx = Ctx { args: vec!["self".into()], fname, locals: BTreeMap::new() };
+    let mut cx = Ctx { frame: Default::default(), args: vec!["self".into()], fname, locals: BTreeMap::new() };
     cx.locals.insert(pos_field.to_string(), Local::Pos);
     cx.locals.insert(rem_name, Local::Remaining(back, pos_field.to_string()));
     // the walk must be fold for the front cursor, rfold for the back cursor
@@ -874,13 +884,18 @@ pub fn gen_pipe(files: &BTreeMap<String, syn::File>, out: &mut String) {
         ("boxed_generate", "impl_alloc.rs", "GenericSequence", "generate", true),
     ];
     for (name, file, tr, func, boxed) in targets {
-        let res: R<String> = (|| {
+        let res: R<(String, (String, String))> = (|| {
             let f = files.get(file).ok_or("file missing")?;
             let fun = if boxed { find_fn(f, tr, is_box_ga, func)? } else { find_fn(f, tr, is_ga, func)? };
             translate(fun, "T")
         })();
         match res {
-            Ok(t) => writeln!(out, "Definition gen_{} : fnprog :=\n  {}.\n", name, t).unwrap(),
+            Ok((t, fr)) => {
+                writeln!(out, "Definition gen_{} : fnprog :=\n  {}.\n", name, t).unwrap();
+                if func == "generate" {
+                    writeln!(out, "(* how the destination of {} is obtained and how it is handed back *)\nDefinition gen_{}_frame : string * string :=\n  (\"{}\", \"{}\").\n", name, name, fr.0, fr.1).unwrap();
+                }
+            }
             Err(e) => println!("ERROR GenPipe.v {}: {}", name, e),
         }
     }
